@@ -366,7 +366,8 @@ class RealAsyncSched:
         ctx = contextvars.copy_context() if copy_ctx else contextvars.Context()
         self.state[t] = "new"
         self.go[t] = self.loop.create_future()
-        self.tasks[t] = self.loop.create_task(self._task_main(t), context=ctx)
+        # (every task of the program carries the same name, as the workers of a crawler would: names do not identify flows)
+        self.tasks[t] = self.loop.create_task(self._task_main(t), context=ctx, name="worker")
 
     def _signal_parked(self) -> None:
         if self.parked is not None and not self.parked.done():
